@@ -753,4 +753,169 @@ pub proof fn lemma_abs_prefix_dom(m: Map<String, IppAttribute>, ks: Seq<String>,
     }
 }
 
+
+/// abstraction of a group: delimiter and name -> abstract value (same shape as `parser::abs_mgroup`)
+pub open spec fn gabs(g: IppAttributeGroup) -> MGroup {
+    (g.stag(), Map::new(g.sattrs().dom(), |k: String| aval(g.sattrs()[k].sval())))
+}
+
+/// the (tag, key order) of the i-th emitted group: i == 0 is the operation group
+pub open spec fn emitted(gs: Seq<IppAttributeGroup>, ops: Seq<String>, others: Seq<(int, Seq<String>)>, i: int) -> (IppAttributeGroup, Seq<String>) {
+    if i == 0 { (gs[first_op(gs)], ops) } else { (gs[others[i - 1].0], others[i - 1].1) }
+}
+
+/// what the encoded attribute section reads back as
+pub open spec fn expected_groups(gs: Seq<IppAttributeGroup>, ops: Seq<String>, others: Seq<(int, Seq<String>)>) -> Seq<MGroup> {
+    Seq::new(others.len() + 1, |i: int| gabs(emitted(gs, ops, others, i).0))
+}
+
+/// machine state after the operation group and the first `k` further groups (the last attribute still open)
+pub open spec fn groups_state(gs: Seq<IppAttributeGroup>, ops: Seq<String>, others: Seq<(int, Seq<String>)>, k: nat) -> MState
+    decreases k
+{
+    let (g, ks) = emitted(gs, ops, others, k as int);
+    let before = if k == 0 { m_init() } else { groups_state(gs, ops, others, (k - 1) as nat) };
+    attrs_state(m_delim(before, g.stag()), g.sattrs(), ks, ks.len())
+}
+
+/// C01's domain at message level, for what is emitted: the first group is the operation group, no other group
+/// is an operation group or carries the end tag as its kind, every attribute map is in `attrs_dom`
+pub open spec fn message_dom(gs: Seq<IppAttributeGroup>) -> bool {
+    &&& gs.len() > 0 && first_op(gs) == 0
+    &&& forall|i: int| 0 <= i < gs.len() ==> attrs_dom((#[trigger] gs[i]).sattrs()) && gs[i].stag() != DelimiterTag::EndOfAttributes
+}
+
+pub proof fn lemma_delimiter_byte(t: DelimiterTag)
+    ensures 0x01 <= (t as u8) <= 0x05, delimiter_tag_of((t as u8) as int) == Some(t),
+{
+}
+
+/// closing a group whose attributes have all been read
+pub proof fn lemma_close_group(s: MState, tag: DelimiterTag, m: Map<String, IppAttribute>, ks: Seq<String>, d: DelimiterTag)
+    requires
+        group_state(s, tag, Map::<String, AVal>::empty(), m, ks, ks.len()), key_perm(ks, m), attrs_dom(m),
+    ensures
+        m_delim_legal(s),
+        m_delim(s, d).groups == s.groups.push((tag, Map::new(m.dom(), |k: String| aval(m[k].sval())))),
+        group_state(m_delim(s, d), d, Map::<String, AVal>::empty(), m, ks, 0),
+{
+    reveal(m_delim);
+    reveal(m_flush);
+    let n = ks.len();
+    let base = Map::<String, AVal>::empty();
+    lemma_abs_prefix_all(m, ks);
+    if n > 0 {
+        let k = ks[n - 1];
+        assert(ks.to_set().contains(k));
+        assert(m.contains_key(k));
+        let a = aval(m[k].sval());
+        lemma_in_domain_lov(a);
+        assert(base.union_prefer_right(abs_prefix(m, ks, (n - 1) as nat)).insert(k, a) =~= abs_prefix(m, ks, n));
+        assert(m_delim(s, d).stack =~~= seq![Seq::<AVal>::empty()]);
+    } else {
+        assert(base.union_prefer_right(abs_prefix(m, ks, 0)) =~= base);
+        assert(abs_prefix(m, ks, 0) =~= base);
+    }
+}
+
+/// the encoded groups, one after the other
+pub proof fn lemma_groups(gs: Seq<IppAttributeGroup>, ops: Seq<String>, others: Seq<(int, Seq<String>)>, k: nat, rest: Seq<u8>)
+    requires
+        message_dom(gs), others_ok(gs, others), k <= others.len(),
+        key_perm(ops, gs[0].sattrs()),
+    ensures
+        m_run(s1(0x01) + keys_enc(gs[0].sattrs(), ops, ops.len()) + others_enc(gs, others, k) + rest, m_init())
+            == m_run(rest, groups_state(gs, ops, others, k)),
+        ({ let (g, ks) = emitted(gs, ops, others, k as int);
+           group_state(groups_state(gs, ops, others, k), g.stag(), Map::<String, AVal>::empty(), g.sattrs(), ks, ks.len()) }),
+        groups_state(gs, ops, others, k).groups == expected_groups(gs, ops, others).take(k as int),
+    decreases k,
+{
+    reveal(m_delim);
+    reveal(m_flush);
+    let (g, ks) = emitted(gs, ops, others, k as int);
+    let m = g.sattrs();
+    lemma_delimiter_byte(g.stag());
+    assert forall|i: int| 0 <= i < ks.len() implies m.contains_key(#[trigger] ks[i]) by {
+        assert(ks.to_set().contains(ks[i]));
+    }
+    if k == 0 {
+        let s0 = m_init();
+        let body = keys_enc(m, ops, ops.len()) + (others_enc(gs, others, 0) + rest);
+        assert(s1(0x01) + keys_enc(m, ops, ops.len()) + others_enc(gs, others, 0) + rest =~= s1(0x01) + body);
+        lemma_delim(0x01, body, s0);
+        let sd = m_delim(s0, DelimiterTag::OperationAttributes);
+        assert(g.stag() == DelimiterTag::OperationAttributes) by { crate::verif_lemmas::lemma_first_op(gs); }
+        assert(sd.stack =~~= seq![Seq::<AVal>::empty()]);
+        lemma_attrs(m, ops, ops.len(), others_enc(gs, others, 0) + rest, sd, g.stag());
+        assert(others_enc(gs, others, 0) + rest =~= rest);
+        assert(groups_state(gs, ops, others, 0).groups =~= expected_groups(gs, ops, others).take(0));
+    } else {
+        let (gp, ksp) = emitted(gs, ops, others, k - 1);
+        let ge = group_enc(g, ks);
+        let prev = groups_state(gs, ops, others, (k - 1) as nat);
+        let head = s1(0x01) + keys_enc(gs[0].sattrs(), ops, ops.len());
+        assert(head + others_enc(gs, others, k) + rest =~= head + others_enc(gs, others, (k - 1) as nat) + (ge + rest));
+        lemma_groups(gs, ops, others, (k - 1) as nat, ge + rest);
+        // delimiter of this group closes the previous one
+        let body = keys_enc(m, ks, ks.len()) + rest;
+        assert(ge + rest =~= s1(g.stag() as u8) + body);
+        assert(key_perm(ksp, gp.sattrs()));
+        lemma_close_group(prev, gp.stag(), gp.sattrs(), ksp, g.stag());
+        lemma_delim(g.stag() as u8, body, prev);
+        let sd = m_delim(prev, g.stag());
+        lemma_attrs(m, ks, ks.len(), rest, sd, g.stag());
+        assert(sd.groups =~= expected_groups(gs, ops, others).take(k as int));
+    }
+}
+
+/// C01 (L4): the attribute section the encoder specification allows (`attrs_enc_ok`), followed by any payload,
+/// is read by the RFC machine as exactly the emitted groups — every attribute name bound to its value, groups in
+/// emission order — and the payload is what follows.
+pub proof fn lemma_attrs_roundtrip(gs: Seq<IppAttributeGroup>, b: Seq<u8>, ops: Seq<String>, others: Seq<(int, Seq<String>)>, payload: Seq<u8>)
+    requires message_dom(gs), attrs_enc_ok(gs, b, ops, others),
+    ensures
+        m_run(b + payload, m_init()) is Some,
+        m_run(b + payload, m_init()).unwrap().0.groups == expected_groups(gs, ops, others),
+        m_run(b + payload, m_init()).unwrap().1 == payload,
+{
+    reveal(m_delim);
+    reveal(m_flush);
+    let n = others.len();
+    let head = s1(0x01) + keys_enc(gs[0].sattrs(), ops, ops.len());
+    let tail = s1(0x03) + payload;
+    assert(b + payload =~= head + others_enc(gs, others, n) + tail);
+    lemma_groups(gs, ops, others, n, tail);
+    let sn = groups_state(gs, ops, others, n);
+    let (g, ks) = emitted(gs, ops, others, n as int);
+    assert(key_perm(ks, g.sattrs()));
+    lemma_close_group(sn, g.stag(), g.sattrs(), ks, DelimiterTag::EndOfAttributes);
+    lemma_delim(0x03, payload, sn);
+    let fin = m_delim(sn, DelimiterTag::EndOfAttributes);
+    assert(fin.groups =~= expected_groups(gs, ops, others));
+}
+
+/// the same with the 8-octet header in front
+pub proof fn lemma_message_roundtrip(h: crate::IppHeader, gs: Seq<IppAttributeGroup>, b: Seq<u8>, ops: Seq<String>,
+                                     others: Seq<(int, Seq<String>)>, payload: Seq<u8>)
+    requires message_dom(gs), attrs_enc_ok(gs, b, ops, others),
+    ensures
+        m_message(spec_header_enc(h) + b + payload) == Some((expected_groups(gs, ops, others), payload)),
+        be16(spec_header_enc(h) + b + payload) == h.version.0,
+        be16((spec_header_enc(h) + b + payload).skip(2)) == h.operation_or_status,
+        be32((spec_header_enc(h) + b + payload).skip(4)) == h.request_id,
+{
+    let w = spec_header_enc(h) + b + payload;
+    let t1 = enc16(h.operation_or_status) + (enc32(h.request_id) + (b + payload));
+    assert(w =~= enc16(h.version.0) + t1);
+    lemma_be16_enc16(h.version.0, t1);
+    lemma_be16_enc16(h.operation_or_status, enc32(h.request_id) + (b + payload));
+    lemma_be32_enc32(h.request_id, b + payload);
+    assert(w.skip(2) == t1);
+    assert(w.skip(4) =~= t1.skip(2));
+    assert(w.skip(8) =~= (enc32(h.request_id) + (b + payload)).skip(4));
+    assert(w.skip(8) == b + payload);
+    lemma_attrs_roundtrip(gs, b, ops, others, payload);
+}
+
 } // verus!
